@@ -1,69 +1,54 @@
 """C19 — image conversion emits descriptors that describe exactly the blobs it wrote
 (nativeconverter/estargz, nativeconverter/zstdchunked, nativeconverter/estargz/externaltoc)."""
-import os
-import re
-
 import vlib
 
 PKG = "nativeconverter/estargz/externaltoc"
 
 
-def _facts(ctx):
-    """Structural tie for the atomicity premise of the TOC-map theorems: the only write to
-    esgzDigest2TOC sits directly between Lock and Unlock of esgzDigest2TOCMu, finalize takes the
-    same mutex before it ranges over the map, and nothing else touches the map.  Regenerated from the
-    current source on every run; a mismatch is a broken tie."""
-    rel = PKG + "/converter.go"
-    try:
-        src = open(os.path.join(vlib.REPO, rel)).read()
-    except OSError:
-        ctx.broken.append(f"fact:missing:{rel}")
-        return
-    n = 0
-    checks = {
-        "map-write-under-mutex":
-            r"esgzDigest2TOCMu\.Lock\(\)\s*\n\s*esgzDigest2TOC\[layerDgst\] = tocInfo\{dgst, size\}\s*\n\s*esgzDigest2TOCMu\.Unlock\(\)",
-        "finalize-locks-first":
-            r"var layers \[\]ocispec\.Descriptor\s*\n\s*esgzDigest2TOCMu\.Lock\(\)\s*\n\s*defer esgzDigest2TOCMu\.Unlock\(\)\s*\n\s*for esgzDigest, toc := range esgzDigest2TOC \{",
-        "map-keyed-by-converted-digest":
-            r"if desc2 != nil \{\s*\n\s*layerDgst = desc2\.Digest\s*\n",
-    }
-    for name, rx in checks.items():
-        if re.search(rx, src):
-            n += 1
-        else:
-            ctx.broken.append(f"fact:{name}:{rel}")
-    # exactly the three uses: make, the guarded write, the guarded range
-    uses = len(re.findall(r"\besgzDigest2TOC\b(?!Mu)", src))
-    if uses == 3:
-        n += 1
-    else:
-        ctx.broken.append(f"fact:map-uses={uses}:{rel}")
-    ctx.cov["facts_checked"] += n
+def _build(ctx, name, race=False):
+    """Harness binary.  zz_verif_xc19hooks_test.go (the only file naming unexported identifiers of the
+    package under test) is compiled in when it builds; when a refactor renamed what it uses, the binary
+    is built without it, the scenarios behind the hooks are skipped, and that is a note, not a failure."""
+    nb = len(ctx.broken)
+    b = ctx.go_test_binary(PKG, name, race=race, only=["c19", "xc19"])
+    if b:
+        return b
+    del ctx.broken[nb:]
+    b = ctx.go_test_binary(PKG, name, race=race, only=["c19"])
+    if b:
+        ctx.notes.append("optional hooks file (unexported fetchTOCBlobFromManifest / layerConvert / "
+                         "layerLossLessConvertFunc) no longer builds against this tree: lossless fault injection and "
+                         "the comparison with the snapshotter's own manifest lookup were skipped")
+    return b
 
 
 def run(ctx):
     ctx.lean_obligations(["SV.Props.C19"], drivers=["svdriver_c19"])
-    _facts(ctx)
     quick = ctx.tier == "quick"
-    b = ctx.go_test_binary(PKG, "h_c19")
+    b = _build(ctx, "h_c19")
     reps = []
     if b:
         reps.append(ctx.correspond(b, "TestVerifC19", "svdriver_c19", "c19",
-                                   env={"VERIF_N": 8 if quick else 120,
+                                   env={"VERIF_N": 6 if quick else 120,
                                         "VERIF_C19_EXTRA": 8 if quick else 120,
                                         "VERIF_C19_STRESS": 3 if quick else 8,
-                                        "VERIF_C19_FINDINGS": 2 if quick else 6},
+                                        "VERIF_C19_FINDINGS": 1 if quick else 6},
                                    timeout=900 if quick else 3000))
         # separate pass: ONLY the inputs of the two recorded findings (known_findings.txt:
         # gzip-converter-keeps-zstd-mediatype, uncompressed-label-missing-preexisting-blob); the main
         # pass above never generates them, so it keeps strict correspondence and a strict oracle
         reps.append(ctx.correspond(b, "TestVerifC19Known", "svdriver_c19", "c19known",
                                    env={"VERIF_C19_EXTRA": 4 if quick else 30}, timeout=900))
+    br = _build(ctx, "h_c19_race", race=True)
+    if br and quick:
+        # the atomicity premise of the TOC-map theorems is OBSERVED, not read off the source: many layers
+        # through one external-TOC converter instance (and one instance given a shared option slice)
+        # under the race detector; a data race / fatal error / wrong TOC image is a violation
+        reps.append(ctx.correspond(br, "TestVerifC19RaceQuick", "svdriver_c19", "c19racequick",
+                                   env={"VERIF_C19_CHILD_N": 8}, timeout=900))
     if not quick:
         # the same scenarios under the race detector (about 13x slower): concurrent batches, retries,
         # whole images, shared option slices, put stress; the table is skipped
-        br = ctx.go_test_binary(PKG, "h_c19_race", race=True)
         if br:
             reps.append(ctx.correspond(br, "TestVerifC19", "svdriver_c19", "c19race",
                                        env={"VERIF_N": 6, "VERIF_C19_TABLE": 0, "VERIF_C19_FINDINGS": 1,
@@ -102,8 +87,10 @@ def run(ctx):
              "contents (puts in random order, manifest layers, fetchTOCBlobFromManifest lookups) with the Lean model"
              + ("" if quick else "; thorough: the batch/retry/image scenarios again under -race"),
         assumptions=[
-            "esgzDigest2TOC is written only in one statement under esgzDigest2TOCMu and ranged over under the same "
-            "mutex (checked on the source each run); a schedule of N conversions is a permutation of N atomic puts",
+            "the writes to the external-TOC converter's shared layer->TOC map are atomic, so a schedule of N conversions "
+            "is a permutation of N atomic puts; not read off the source but observed every run: 12-96 layers through "
+            "ONE converter instance lined up right before the map write, without and with the race detector (a data "
+            "race or 'concurrent map writes' is a violation), and the TOC image is recomputed by the oracle",
             "BuildSound: the decompression of the blob a builder emits is the stream its accessors hash and count, and "
             "the TOC estargz.Open finds is the TOC whose digest the accessor returns (recomputed by the oracle for "
             "every conversion, not proved)",
